@@ -303,7 +303,7 @@ func constrainQuery(q *Query, tp topoDef, c Case) {
 		if invDefect {
 			q.Own = false
 			q.Op = toPos(q.Op)
-			if q.K == "cnthf" && c.idxN(r.To) && (known(sigStop) || known(sigStopPanic)) {
+			if q.K == "cnthf" && c.idxN(r.To) && (known(sigStop)) {
 				q.K = "cnttf"
 			}
 		}
@@ -316,10 +316,10 @@ func constrainQuery(q *Query, tp topoDef, c Case) {
 			if invDefect {
 				q.Op = toPos(q.Op)
 			}
-			if q.K == "hopdown" && c.idxN(0) && (known(sigStop) || known(sigStopPanic) || known(sigOwnDrop)) {
+			if q.K == "hopdown" && c.idxN(0) && (known(sigStop) || known(sigOwnDrop)) {
 				q.K = "hopup"
 			}
-			if q.K == "hopup" && q.Own && c.idxN(0) && c.idxN(1) && known(sigLookup) {
+			if q.K == "hopup" && c.idxN(0) && known(sigLookup) {
 				q.Own = false
 			}
 		}
@@ -344,16 +344,16 @@ func constrainQuery(q *Query, tp topoDef, c Case) {
 	}
 	switch q.K {
 	case "horder":
-		if c.idxN(r.To) && (known(sigOrderDrop) || known(sigStop) || known(sigStopPanic) || (q.Own && known(sigOwnDrop))) {
+		if c.idxN(r.To) && (known(sigOrderDrop) || known(sigStop) || (q.Own && known(sigOwnDrop))) {
 			q.K = alt
 		}
 	case "torder":
-		if c.idxN(r.From) && (known(sigOrderDrop) || (q.Own && c.idxN(r.To) && known(sigLookup))) {
+		if c.idxN(r.From) && (known(sigOrderDrop) || (c.idxN(r.To) && known(sigLookup))) {
 			q.K = alt
 		}
 	case "hf":
 		if c.idxN(r.To) {
-			if known(sigStop) || known(sigStopPanic) {
+			if known(sigStop) {
 				q.K = "tf"
 			} else {
 				if known(sigOwnDrop) {
@@ -369,8 +369,9 @@ func constrainQuery(q *Query, tp topoDef, c Case) {
 		if known(sigNegDrop) {
 			q.Op = toPos(q.Op)
 		}
-		if q.Own && c.idxN(r.To) && known(sigLookup) {
+		if c.idxN(r.To) && known(sigLookup) {
 			q.Own = false
+			q.OwnOrder = 0
 		}
 	}
 }
